@@ -1,6 +1,7 @@
 //! qvh — verification harness for /verif (see /verif/DESIGN.md).
 mod hdr;
 mod pure;
+mod seq;
 mod sim;
 mod util;
 
@@ -61,6 +62,114 @@ fn main() {
             write_lines(&format!("{}/hdr.in", out), &reqs);
             write_lines(&format!("{}/hdr.impl", out), &resp);
             println!("hdr requests={}", reqs.len());
+        }
+        "seq" => {
+            let profile = match m.get("profile").map(|s| s.as_str()).unwrap_or("general") {
+                "churn" => seq::Profile::Churn,
+                "validate" => seq::Profile::Validate,
+                _ => seq::Profile::General,
+            };
+            let nops: usize = m.get("ops").and_then(|s| s.parse().ok()).unwrap_or(40);
+            let dump = m.get("dump").map(|s| s == "1").unwrap_or(false);
+            let mut inp = Vec::new();
+            let mut imp = Vec::new();
+            let mut log = Vec::new();
+            let cases: Vec<seq::Case> = match m.get("replay") {
+                Some(path) => {
+                    let text = std::fs::read_to_string(path).unwrap();
+                    let mut cs = Vec::new();
+                    let mut cur: Vec<&str> = Vec::new();
+                    for l in text.lines() {
+                        if l.starts_with("case ") {
+                            cur = vec![l];
+                        } else if l == "end" {
+                            cs.push(seq::Case::parse(&cur));
+                            cur = Vec::new();
+                        } else if !cur.is_empty() {
+                            cur.push(l);
+                        }
+                    }
+                    cs
+                }
+                None => (0..n).map(|id| seq::gen_case(seed, id, profile, nops)).collect(),
+            };
+            let only: Option<usize> = m.get("only").and_then(|s| s.parse().ok());
+            let skip: Vec<usize> = m
+                .get("skip")
+                .map(|s| s.split(',').filter_map(|x| x.parse().ok()).collect())
+                .unwrap_or_default();
+            let cases: Vec<seq::Case> = cases
+                .into_iter()
+                .filter(|c| only.map(|o| o == c.id).unwrap_or(true) && !skip.contains(&c.id))
+                .collect();
+            // watchdog: a case that does not finish within the budget is a hang
+            // (livelock inside the library); report it and stop the process
+            let progress = std::sync::Arc::new(std::sync::atomic::AtomicUsize::new(usize::MAX));
+            let tick = std::sync::Arc::new(std::sync::atomic::AtomicUsize::new(0));
+            {
+                let progress = progress.clone();
+                let tick = tick.clone();
+                let budget: u64 = m.get("hang-secs").and_then(|s| s.parse().ok()).unwrap_or(20);
+                std::thread::spawn(move || {
+                    let mut last = (usize::MAX, 0usize);
+                    let mut since = std::time::Instant::now();
+                    loop {
+                        std::thread::sleep(std::time::Duration::from_millis(200));
+                        let cur = (
+                            progress.load(std::sync::atomic::Ordering::Relaxed),
+                            tick.load(std::sync::atomic::Ordering::Relaxed),
+                        );
+                        if cur != last {
+                            last = cur;
+                            since = std::time::Instant::now();
+                        } else if cur.0 != usize::MAX && since.elapsed().as_secs() >= budget {
+                            println!("hang case={}", cur.0);
+                            std::process::exit(3);
+                        }
+                    }
+                });
+            }
+            let mut f_in = std::fs::File::create(format!("{}/seq.in", out)).unwrap();
+            let mut f_impl = std::fs::File::create(format!("{}/seq.impl", out)).unwrap();
+            let mut f_log = std::fs::File::create(format!("{}/seq.log", out)).unwrap();
+            let flush_to = |f: &mut std::fs::File, v: &mut Vec<String>| {
+                for l in v.drain(..) {
+                    writeln!(f, "{}", l).unwrap();
+                }
+                f.flush().unwrap();
+            };
+            let ncases = cases.len();
+            for case in cases {
+                flush_to(&mut f_in, &mut inp);
+                flush_to(&mut f_impl, &mut imp);
+                flush_to(&mut f_log, &mut log);
+                progress.store(case.id, std::sync::atomic::Ordering::Relaxed);
+                tick.fetch_add(1, std::sync::atomic::Ordering::Relaxed);
+                inp.extend(case.lines());
+                flush_to(&mut f_in, &mut inp);
+                let img = match util::format_image(case.size, case.cb, case.ro, 1 << case.bsb) {
+                    Ok(i) => i,
+                    Err(_) => {
+                        imp.push(format!("case {}", case.id));
+                        imp.push("format err".into());
+                        imp.push("end".into());
+                        continue;
+                    }
+                };
+                let files = vec![sim::SimFile::new("top", img)];
+                let mut r = seq::Runner::new(case.clone(), files, if dump { Some(out.clone()) } else { None });
+                r.run();
+                imp.push(format!("case {}", case.id));
+                imp.extend(r.out.drain(..));
+                imp.push("end".into());
+                log.push(format!("case {}", case.id));
+                log.extend(seq::log_lines(&r.files));
+                log.push("end".into());
+            }
+            flush_to(&mut f_in, &mut inp);
+            flush_to(&mut f_impl, &mut imp);
+            flush_to(&mut f_log, &mut log);
+            println!("seq cases={}", ncases);
         }
         "respond" => {
             // answer request lines from a file (replay)
